@@ -367,6 +367,13 @@ def run_check(fn, pid):
     except FrameworkError as e:
         print("FRAMEWORK-ERROR property=%s: %s" % (pid, e), file=sys.stderr)
         sys.exit(2)
+    except SystemExit:
+        raise
+    except BaseException as e:   # a bug of the machinery itself must never look like a verdict (an uncaught exception would exit 1)
+        import traceback
+        traceback.print_exc()
+        print("FRAMEWORK-ERROR property=%s: unexpected %s: %s" % (pid, type(e).__name__, e), file=sys.stderr)
+        sys.exit(2)
 
 
 def run_exe(exe, args=(), stdin_text=None, stdin_path=None, timeout=900, env=None, stdout_path=None):
